@@ -16,7 +16,7 @@ Classification of deviations (DESIGN 2.5, value properties):
   3. Any other deviating case is shrunk against the real code to a smallest unexplained sub-expression whose operands are
      replaced by constants; the key is the operator shape plus the kind of failure. Unknown key -> VIOLATION.
 """
-import os, sys, json, re, random, hashlib, collections
+import os, sys, json, re, random, hashlib, collections, time
 from vf import common
 from vf import pml_ref as P
 from vf.common import Check, Inconclusive
@@ -70,7 +70,12 @@ def run_cmds(binary, cmds, fast=True, timeout=900):
     for c in cmds:
         assert '\n' not in c
     inp = 'T\t%d\n' % WATCHDOG_MS + ''.join(c + '\n' for c in cmds)
-    rc, out, err, to = common.run_proc([binary], inp=inp, timeout=timeout, env=FAST_ENV if fast else SLOW_ENV)
+    for attempt in range(8):
+        rc, out, err, to = common.run_proc([binary], inp=inp, timeout=timeout, env=FAST_ENV if fast else SLOW_ENV)
+        if rc == 127 and 'error while loading shared libraries' in (err or ''):
+            time.sleep(8)      # the library is being relinked by a concurrent build of the same tree: transient
+            continue
+        break
     ans = [l[1:] for l in out.split('\n') if l.startswith('@')]
     if to or rc != 0 or len(ans) != len(cmds) + 2 or ans[0] != 'READY':
         raise Inconclusive('vpml harness: rc=%s timeout=%s answers=%d/%d first=%r stderr=%s' % (
@@ -79,7 +84,12 @@ def run_cmds(binary, cmds, fast=True, timeout=900):
     for m in re.finditer(r'\n@@(CRASH|HANG)-AT (\d+)\n', err):
         reports[int(m.group(2)) - 1] = err[pos:m.start()]
         pos = m.end()
-    return [parse_answer(a) for a in ans[2:]], reports
+    reports['_stuck'] = len(re.findall(r'@@STUCK-RETRY-AT', err))
+    outs = [parse_answer(a) for a in ans[2:]]
+    for o in outs:
+        if o[0] == 'BAD':
+            raise Inconclusive('vpml harness answered %r' % (o[1],))
+    return outs, reports
 
 
 def setup(env, cmds):
@@ -281,7 +291,7 @@ def bulk_job(job):
     allc, n0 = setup(env, cmds)
     outs, reports = run_cmds(job['binary'], allc)
     check_setup(outs, n0, 'bulk job')
-    res = {'cases': len(vcases), 'evals': 0, 'ok': 0, 'explained': collections.Counter(), 'unexplained': [], 'nontrivial': set(),
+    res = {'stuck': reports['_stuck'], 'cases': len(vcases), 'evals': 0, 'ok': 0, 'explained': collections.Counter(), 'unexplained': [], 'nontrivial': set(),
            'ops': collections.Counter(), 'depth': collections.Counter(), 'samples': [], 'expl_samples': {}, 'selfcheck': 0, 'multi_explained': 0}
     for i, ((t, v), c) in enumerate(zip(cases, vcases)):
         obs = tuple(outs[n0 + 3 * i:n0 + 3 * i + 3])
@@ -342,7 +352,7 @@ def shrink_value(binary, case, asis):
     res = evaluate(cands)
     bad = [(t, c, obs) for t, (c, obs, b) in zip(cands, res) if b]
     if not bad or not res[cands.index(tree)][2]:
-        return None, 'deviation of %r did not reproduce when evaluated again' % case['min']
+        return None, 'deviation of %r (observed %r) did not reproduce when evaluated again (now %r)' % (case['min'], case.get('observed'), [list(o[:2]) for o in res[cands.index(tree)][1]])
     m, mc, mobs = bad[0]
     for _ in range(12):
         trials = []
@@ -460,7 +470,7 @@ def error_job(job):
     allc, n0 = setup(env, cmds)
     outs, reports = run_cmds(job['binary'], allc)
     check_setup(outs, n0, 'error job')
-    res = {'cases': len(cases), 'evals': 0, 'ok': 0, 'explained': collections.Counter(), 'unexplained': [], 'kinds': collections.Counter(),
+    res = {'stuck': reports['_stuck'], 'cases': len(cases), 'evals': 0, 'ok': 0, 'explained': collections.Counter(), 'unexplained': [], 'kinds': collections.Counter(),
            'expl_samples': {}, 'samples': []}
     for c, (off, ln) in zip(cases, spans):
         obs = outs[n0 + off:n0 + off + ln]
@@ -496,7 +506,7 @@ def classify_error(binary, case, asis):
     iso = dict(case, text=case['node'])
     cmds = error_cmds(case, chained=False) + error_cmds(iso, chained=False)
     allc, n0 = setup(env, cmds)
-    outs, reports = run_cmds(binary, allc, fast=False)
+    outs, reports = run_cmds(binary, allc)
     check_setup(outs, n0, 'error classification')
     k = len(error_cmds(case))
     whole, alone = outs[n0:n0 + k], outs[n0 + k:]
@@ -770,16 +780,35 @@ def judge_sequence(sim, outs, idx, active):
             m = re.match(r'\w+\[(.*)\]$', s['target'])
             if m: texts.append(m.group(1))
             return si, 'stmt:%s:%s:%s' % (s['api'], s['form'], MODE.get(o[0], o[0])), explained(texts, outcome=o[0]), {'answer': list(o)}
-        for (loc, v, cls), ob in zip(model, rb):
-            if ob != ('V', v):
-                how = 'differs' if ob[0] == 'V' else MODE.get(ob[0], ob[0])
-                if loc in written:
-                    ex = explained([written[loc]], observed_value=ob[1]) if ob[0] == 'V' else None
-                    key = 'stmt:%s:%s:readback-%s:target' % (s['api'], s['form'], how)
-                else:
-                    ex = None
-                    key = 'stmt:write-%s:readback-%s:other-%s' % (s['kind'], how, cls)
-                return si, key, ex, {'location': loc, 'expected': v, 'observed': list(ob)}
+        # as-is prediction for the locations this step writes; the second assignment of a list sees the store as the code
+        # under test left it after the first one
+        pred = {}
+        if s['rhs']:
+            p1, f1 = asis.outcomes(s['rhs'][0], env)
+            pred[tgt] = (p1, f1)
+            if len(s['rhs']) > 1:
+                m2 = re.search(r'; (\w+) = ', s['cmd'])
+                v1 = [x[1] for x in p1 if x[0] == 'V']
+                if m2 and len(v1) == 1:
+                    mid = [(l, v1[0] if l == tgt else v, c) for l, v, c in before]
+                    if tgt not in [l for l, _, _ in before]:
+                        mid.append((tgt, v1[0], 'field'))
+                    p2, f2 = asis.outcomes(s['rhs'][1], env_of_locations(mid))
+                    pred[m2.group(1)] = (p2, f1 | f2)
+        dev = [(loc, v, cls, ob) for (loc, v, cls), ob in zip(model, rb) if ob != ('V', v)]
+        if dev:
+            fired = set()
+            if all(loc in pred and ob[0] == 'V' and matches(ob, pred[loc][0]) and pred[loc][1] for loc, v, cls, ob in dev):
+                for loc, v, cls, ob in dev:
+                    fired |= pred[loc][1]
+            others = [d for d in dev if d[0] not in written]
+            loc, v, cls, ob = others[0] if others else dev[0]
+            how = 'differs' if ob[0] == 'V' else MODE.get(ob[0], ob[0])
+            if others:
+                key = 'stmt:write-%s:readback-%s:other-%s' % (s['kind'], how, cls)
+            else:
+                key = 'stmt:%s:%s:readback-%s:target' % (s['api'], s['form'], how)
+            return si, key, sorted(fired) or None, {'location': loc, 'expected': v, 'observed': list(ob)}
         before = model
     return None
 
@@ -795,7 +824,7 @@ def seq_job(job):
         spans.append((len(cmds), idx, len(c)))
         cmds += c
     outs, reports = run_cmds(job['binary'], cmds)
-    res = {'cases': len(seqs), 'evals': 0, 'ok': 0, 'explained': collections.Counter(), 'unexplained': [], 'steps': 0, 'forms': collections.Counter(),
+    res = {'stuck': reports['_stuck'], 'cases': len(seqs), 'evals': 0, 'ok': 0, 'explained': collections.Counter(), 'unexplained': [], 'steps': 0, 'forms': collections.Counter(),
            'expl_samples': {}, 'samples': []}
     for st, sm, (off, idx, n) in zip(seqs, sims, spans):
         o = outs[off:off + n]
@@ -832,7 +861,7 @@ def shrink_sequence(binary, case, active):
         except Invalid:
             return None
         c, idx = seq_cmds(sm)
-        outs, reports = run_cmds(binary, c, fast=False)
+        outs, reports = run_cmds(binary, c)
         j = judge_sequence(sm, outs, idx, active)
         if j is not None and j[1] == key and j[0] == len(st) - 1 and not j[2]:
             return j[3], report_sig(reports, idx[-1]), sm
@@ -1005,6 +1034,11 @@ def main(tier, replay):
         print(('STILL FAILS: ' if bad else 'passes now: ') + text)
         sys.exit(1 if bad else 0)
 
+    if thorough:
+        outs, _ = run_cmds(binary, ['R', 'D\tint\ta\t7', 'Z', 'E\ta + 1'])
+        if outs[-1] != ('V', 8):
+            raise Inconclusive('supervisor self-test (stuck child is killed and its commands re-run) failed: %r' % (outs,))
+        chk.add('harness_stuck_child_guard_selftest', 'ok')
     active = run_probes(chk, binary)
     chk.add('active_variants', ' '.join(sorted(active)) or '-')
     chk.add('special_data_array_without_content', json.dumps(special_probes(chk, binary)))
@@ -1015,13 +1049,13 @@ def main(tier, replay):
     step = 1100
     for lo in range(0, len(fam), step):
         jobs.append({'type': 'bulk', 'binary': binary, 'seed': seed0 + len(jobs), 'family': (lo, lo + step), 'active': active, 'maxdepth': maxdepth})
-    nexpr, per = (400000, 1000) if thorough else (8000, 400)
+    nexpr, per = (300000, 1000) if thorough else (8000, 400)
     for _ in range(nexpr // per):
         jobs.append({'type': 'bulk', 'binary': binary, 'seed': seed0 + len(jobs), 'n': per, 'active': active, 'maxdepth': maxdepth})
-    nerr, per = (6000, 100) if thorough else (300, 60)
+    nerr, per = (5000, 100) if thorough else (300, 60)
     for _ in range(nerr // per):
         jobs.append({'type': 'error', 'binary': binary, 'seed': seed0 + len(jobs), 'n': per, 'active': active})
-    nseq, per = (10000, 100) if thorough else (500, 50)
+    nseq, per = (8000, 100) if thorough else (500, 50)
     for _ in range(nseq // per):
         jobs.append({'type': 'seq', 'binary': binary, 'seed': seed0 + len(jobs), 'n': per, 'active': active})
     chk.rng.shuffle(jobs)
@@ -1043,6 +1077,7 @@ def main(tier, replay):
             expl_samples.setdefault(k, r['expl_samples'].get(k))
         unexplained[t] += r['unexplained']
         more += r.get('unexplained_more', 0)
+        tot['stuck'] += r.get('stuck', 0)
         for s in r['samples']:
             if sum(1 for x in chk.samples if x.get('kind') == t) < 2:
                 chk.sample(dict(s, kind=t), limit=8)
@@ -1066,6 +1101,7 @@ def main(tier, replay):
     chk.add('error_kinds', json.dumps(dict(sorted(kinds.items()))))
     chk.add('operand_order_cases_decided_by_error_text', tot['order_decided'])
     chk.add('statement_forms', json.dumps(dict(sorted(forms.items()))))
+    chk.add('harness_children_killed_as_stuck_and_rerun', tot['stuck'])
     chk.add('deviations_matching_as_is_model', sum(explained.values()))
     chk.add('cases_matching_several_variants', tot['multi'])
     # minimum observation thresholds
